@@ -315,6 +315,7 @@ def run(ctx):
         ctx.notes.append(f"{kinddiff} cases where model and implementation both reject but with a different exception class (not part of the verdict)")
     run_primitives(ctx, enums)
     run_quantum(ctx)
+    run_fixed_witnesses(ctx)
 
 
 def oracle_read(ctx, conv, meta, kind, ireq, s, r, warned, case, enums):
@@ -461,6 +462,21 @@ def run_quantum(ctx):
             ctx.violate("decimal_scale0_quantum" if n == 0 else "decimal_quantum_wrong", {"op": "quantum", "scale": n},
                         f"Decimal(scale={n}) stores the quantum {q!r}, expected {want!r}")
     ctx.exhaustive.append("Decimal(scale=n).scale for n = 0..40")
+
+
+def run_fixed_witnesses(ctx):
+    """witnesses of findings recorded as fixed: must pass on every run"""
+    from ofxtools import Types as T
+    for n in (1, 3, 9):
+        for v in (-10 ** n, -10 ** 9 * 10 ** n):
+            case = {"conv": {"ctor": ["Integer", [n]], "required": False}, "op": "unconvert", "value": repr(v)}
+            if run_impl(T.Integer(n).unconvert, v)[0] == "ok" or run_impl(T.Integer(n).convert, str(v))[0] == "ok":
+                ctx.violate("integer_negative_beyond_limit", case, f"Integer({n}) accepts {v} (length limit ignores negative values)")
+        ok = -(10 ** n - 1)
+        case = {"conv": {"ctor": ["Integer", [n]], "required": False}, "op": "unconvert", "value": repr(ok)}
+        if run_impl(T.Integer(n).unconvert, ok) != ("ok", str(ok)) or run_impl(T.Integer(n).convert, str(ok)) != ("ok", ok):
+            ctx.violate("refuses_domain_value_Integer", case, f"Integer({n}) refuses {ok}")
+        ctx.evaluations += 3
 
 
 def replay(ctx, data):
